@@ -523,7 +523,7 @@ func driveC15(c *Ctx) {
 				before := clone(insts[cur])
 				typed := 0
 				if st.B%3 == 0 {
-					typed = 1 + st.A%2
+					typed = 1 + st.A%3
 				}
 				err, r, wasTyped := applyTo(rs[st.R], &insts[cur], typed)
 				c.CheckOp("ApplyDefaults", r)
@@ -643,7 +643,8 @@ func driveC15(c *Ctx) {
 // canonical value. typed 1 / 2: when the instance is a non-empty object whose members are all
 // objects (1) or all arrays (2), through a pointer to a map[string]map[string]any /
 // map[string][]any holding a deep copy - the element type is then a Go type of its own, not an
-// interface - and the result is brought back to canonical form through its JSON text.
+// interface - or (3) through a pointer to a map[string]json.RawMessage, and the result is
+// brought back to canonical form through its JSON text.
 func applyTo(res *jsonschema.Resolved, inst *any, typed int) (err error, r OpResult, wasTyped bool) {
 	m, isObj := (*inst).(map[string]any)
 	if typed != 0 && isObj && len(m) > 0 {
@@ -676,6 +677,11 @@ func applyTo(res *jsonschema.Resolved, inst *any, typed int) (err error, r OpRes
 					holder = &h
 				}
 			}
+		case 3:
+			h := map[string]json.RawMessage{}
+			if json.Unmarshal(text, &h) == nil {
+				holder = &h
+			}
 		}
 		if holder != nil {
 			r = Op(func() { err = res.ApplyDefaults(holder) })
@@ -686,6 +692,26 @@ func applyTo(res *jsonschema.Resolved, inst *any, typed int) (err error, r OpRes
 					*inst = back
 				}
 			}
+			// The holder is the client's own memory: having copied what it needs, it wipes it (raw
+			// bytes up to their capacity, nested maps, slice elements). Nothing the library keeps
+			// may live there.
+			switch h := holder.(type) {
+			case *map[string]json.RawMessage:
+				for _, raw := range *h {
+					raw = raw[:cap(raw)]
+					for i := range raw {
+						raw[i] = ' '
+					}
+				}
+			case *map[string]map[string]any:
+				for _, m := range *h {
+					wipe(m)
+				}
+			case *map[string][]any:
+				for _, a := range *h {
+					wipe(a)
+				}
+			}
 			return err, r, true
 		}
 	}
@@ -693,6 +719,23 @@ func applyTo(res *jsonschema.Resolved, inst *any, typed int) (err error, r OpRes
 	r = Op(func() { err = res.ApplyDefaults(&holder) })
 	*inst = holder
 	return err, r, false
+}
+
+// wipe destroys a JSON-shaped value in place.
+func wipe(v any) {
+	switch x := v.(type) {
+	case map[string]any:
+		for k, e := range x {
+			wipe(e)
+			delete(x, k)
+		}
+	case []any:
+		x = x[:cap(x)]
+		for i := range x {
+			wipe(x[i])
+			x[i] = "wiped by the client"
+		}
+	}
 }
 
 // evolveSchema applies one edit to the subschema number `which` (in a fixed walk through
